@@ -22,7 +22,9 @@ MPick == /\ ~picked /\ picked' = TRUE
          /\ db' \in [Srcs -> Entries]
          /\ todo' = 1..Len(tx.ins)
          /\ UNCHANGED <<tx, status, why>>
-MNext == MPick \/ (picked /\ UNext /\ UNCHANGED picked)
+MExamine == picked /\ (\E i \in todo : Examine(i)) /\ UNCHANGED picked
+MReturn  == picked /\ Return /\ UNCHANGED picked
+MNext == MPick \/ MExamine \/ MReturn
 MSpec == MInit /\ [][MNext]_<<uvars, picked>>
 
 MRetIffBacked == picked => RetIffBacked
